@@ -152,6 +152,14 @@ CHECKS = {
         note="Partial: which article is recorded for which definition is evaluator behaviour (end-to-end only). An endless-definition defect was repaired by a fix: commit.",
         technique="Lean 4 proof (row and visibility-flag lemmas) + differential tok stream + end-to-end definition-info comparison",
     ),
+    "C17": dict(
+        category="proof",
+        text="Scope core on the Go-map model of TFrame: Lean proves for EVERY sequence of writes performed inside a block that a key absent from the entry snapshot (and not written back) is absent after the block, that outer variables keep what the block assigned to them, that a shadowed variable gets its saved value back (distinct restore keys), "
+             "and that the i-th block variable is bound to the i-th resolved parameter type with surplus variables bound to nil (distinct variable names). End-to-end: generated block calls (do/end, braces) over arrays, hashes, ranges, integers and strings with 0-3 parameters, shadowing, nesting and block locals, `dbtp` inside and after the block against a reference.",
+        design="DESIGN.md §4 C17",
+        note="Partial: the resolution of declared block_parameters (Unify/Item/Flatten/UnifyArgument/Self) against the receiver is end-to-end only, on homogeneous receivers.",
+        technique="Lean 4 proof (induction over arbitrary write sequences on the map model) + end-to-end block probes",
+    ),
 }
 
 PENDING_REASON = "check not built yet in this session (see DESIGN.md §4 for the planned Lean model and theorem); not claimed until its check exists"
